@@ -1260,6 +1260,11 @@ func (e *c12Env) modelOracle(out *c12Outcome) error {
 				out.label("keyless-tx-two-nil-returns")
 				continue
 			}
+			if playReq >= 0 && runs[playReq].err == nil {
+				// legal one-at-a-time order: DoTx, the play evicts the transaction, DoTx again
+				out.label("admitted-evicted-admitted-again")
+				continue
+			}
 			return fmt.Errorf("transaction %s was admitted twice (two DoTx calls of the same transaction returned nil)", hx.Hex8(r.tx.Txid))
 		}
 		admitted[string(r.tx.Txid)] = true
